@@ -29,4 +29,19 @@ def setIdx {α : Type} (a : List α) (i : Int) (v : α) : Except String (List α
 def slice {α : Type} (a : List α) (lo hi : Int) : Except String (List α) :=
   if 0 ≤ lo ∧ lo ≤ hi ∧ hi.toNat ≤ a.length then pure ((a.take hi.toNat).drop lo.toNat) else throw "slice bounds out of range"
 
+/-- `a / b` on unsigned integers (a zero divisor is a run-time panic) -/
+def divU (a b : Nat) : Except String Nat := if b = 0 then throw "integer divide by zero" else pure (a / b)
+
+/-- `a % b` on unsigned integers -/
+def modU (a b : Nat) : Except String Nat := if b = 0 then throw "integer divide by zero" else pure (a % b)
+
+/-- `binary.BigEndian.PutUint16(b, v)` (panics when `len(b) < 2`) -/
+def putU16BE (b : List Nat) (v : Nat) : Except String (List Nat) :=
+  if b.length < 2 then throw "index out of range" else pure ((b.set 0 (v / 256 % 256)).set 1 (v % 256))
+
+/-- `binary.BigEndian.PutUint32(b, v)` -/
+def putU32BE (b : List Nat) (v : Nat) : Except String (List Nat) :=
+  if b.length < 4 then throw "index out of range"
+  else pure ((((b.set 0 (v / 16777216 % 256)).set 1 (v / 65536 % 256)).set 2 (v / 256 % 256)).set 3 (v % 256))
+
 end Go
